@@ -49,8 +49,9 @@ def run(ctx):
     # every kind/type at least once; chain counts and sizes sampled
     pick_c = []
     for k in sorted({(c["kind"], c["ty"]) for c in conf}):
-        pool = [c for c in conf if (c["kind"], c["ty"]) == k and (thorough or c["n"] <= 11)]
+        pool = [c for c in conf if (c["kind"], c["ty"]) == k and (thorough or c["n"] <= 11) and c["nc"] < 257]
         pick_c += rnd.sample(pool, 6 if thorough else 2)
+    pick_c += [c for c in conf if c["nc"] >= 257]      # the large runs, every time
     pick_c += [c for c in conf if c["n"] == 48 and c["kind"] in ("MH", "Gibbs") and c["ty"] == "f64" and c["nc"] == 4 and c["nd"] == 0]
     slowf = [c for c in faults if c["slow"] and c["drop_at"] <= c["nc"] + c["nd"] - 3]   # >= 3 slow transitions after the drop: a periodic send fails
     fastf = [c for c in faults if not c["slow"]]
